@@ -5,6 +5,7 @@ import (
 	"encoding/json"
 	"errors"
 	"fmt"
+	"sort"
 	"strconv"
 
 	"github.com/go-openapi/jsonpointer"
@@ -217,6 +218,19 @@ func (operation *Operation) Validate(ctx context.Context, opts ...ValidationOpti
 	if v := operation.ExternalDocs; v != nil {
 		if err := v.Validate(ctx); err != nil {
 			return fmt.Errorf("invalid external docs: %w", err)
+		}
+	}
+
+	callbackNames := make([]string, 0, len(operation.Callbacks))
+	for name := range operation.Callbacks {
+		callbackNames = append(callbackNames, name)
+	}
+	sort.Strings(callbackNames)
+	for _, name := range callbackNames {
+		if v := operation.Callbacks[name]; v != nil {
+			if err := v.Validate(ctx); err != nil {
+				return fmt.Errorf("invalid callback %q: %w", name, err)
+			}
 		}
 	}
 
